@@ -781,6 +781,7 @@ type Frame struct {
 	siteIns  ssa.Instruction
 	up       *Frame // the frame this one is inlined into
 	ownSites map[string]bool
+	addrLocals map[string]ssa.Value
 	siteOrds map[ssa.Instruction]int
 }
 
